@@ -64,9 +64,14 @@ func (s *synchronizer) sync(_ context.Context, res Response) (Response, bool, er
 	if res.Command == CommandCommit && res.End > s.cycle.res.End {
 		s.cycle.res.End = res.End
 	}
+	// The merged response is what the writer sees: a failure reported by any
+	// leaseholder must not be hidden by a later successful response.
+	if s.cycle.res.Err == nil {
+		s.cycle.res.Err = res.Err
+	}
 	fulfilled := s.cycle.counter == s.nodeCount
 	if fulfilled {
 		s.cycle.counter = 0
 	}
-	return res, fulfilled, nil
+	return s.cycle.res, fulfilled, nil
 }
